@@ -77,6 +77,10 @@ def perms {α} : List α → List (List α)
   | [] => [[]]
   | x :: xs => (perms xs).flatMap fun p => (List.range (p.length + 1)).map fun i => p.take i ++ [x] ++ p.drop i
 
+def isOkUR : UR → Bool
+  | .ok _ _ => true
+  | .err => false
+
 def sameSet (a b : List Nat) : Bool := a.all (b.contains ·) && b.all (a.contains ·)
 
 def handle (args : List String) : Option String :=
@@ -87,7 +91,9 @@ def handle (args : List String) : Option String :=
       let o := strList originals
       let impl := showUR (unify o inputs)
       match parseUR go with
-      | none => some (impl ++ "\tpass\t-")
+      | none =>
+        if !inputs.isEmpty && mustLock o inputs then some (impl ++ "\tfail:spurious-lock-error\tunlisted")
+        else some (impl ++ "\tpass\t-")
       | some (byArch, _) =>
         match specCheck o inputs byArch with
         | some why => some (impl ++ "\tfail:" ++ why ++ "\tunlisted")
@@ -146,6 +152,7 @@ def handle (args : List String) : Option String :=
       | none => some ("err\tpass\t-")
       | some sets =>
         let inputs := (sets.zip lab).map fun ((_, s), l) => resolvedOf l s
+        let w := strList world        -- unify sees the requested list as written (later duplicates overwrite pins)
         let showCfg (r : UR) : String :=
           match r with
           | .err => "err"
@@ -156,11 +163,16 @@ def handle (args : List String) : Option String :=
         let impl := if outs.contains go then go else canon
         if outs.any (· != canon) then some (impl ++ "\tfail:arch-order-dependent\tF09g") else
         match parseUR ((go.splitOn "|A ").headD "") with
-        | none => some (impl ++ "\tpass\t-")
-        | some (byArch, _) =>
+        | none =>
+          if mustLock w inputs then some (impl ++ "\tfail:spurious-lock-error\tunlisted")
+          else some (impl ++ "\tpass\t-")
+        | some (byArch, m) =>
           match specCheck w inputs byArch with
           | some why => some (impl ++ "\tfail:" ++ why ++ "\tunlisted")
-          | none => some (impl ++ "\tpass\t-")
+          | none =>
+            -- every per-architecture configuration must be a configuration for exactly that architecture
+            if go != showCfg (.ok byArch m) then some (impl ++ "\tfail:config-archs\tunlisted")
+            else some (impl ++ "\tpass\t-")
     | _ => some "bad-universe\tfail:bad-universe\tunlisted"
   | "l.e2e" :: world :: narch :: rest =>
     match readArchs narch.toNat! rest with
@@ -175,7 +187,7 @@ def handle (args : List String) : Option String :=
       -- `apko build`: joint resolution, unify, then each per-architecture lock re-resolved alone
       let multi := allOk (resolveAll archs w)
       let cfgs := multi.bind fun sets =>
-        match unify w (sets.map fun (a, s) => resolvedOf a s) with
+        match unify (strList world) (sets.map fun (a, s) => resolvedOf a s) with
         | .err => none
         | .ok byArch _ => some (sets.map fun (a, s) => (a, s, sget byArch a))
       let relocks := cfgs.map fun l => l.map fun (a, s, pl) =>
@@ -204,6 +216,14 @@ def handle (args : List String) : Option String :=
         " pkgs=" ++ (match lockOk with
           | some ss => ";".intercalate (ss.map fun (a, s) => enc a ++ ":" ++ showNV s)
           | none => "-")
+      -- LockImageConfiguration ranges over a Go map: when unify's outcome depends on the order (F09g) either
+      -- answer can come back
+      let orderDep : Bool := match multi with
+        | some sets =>
+          let outs := (perms (sets.map fun (a, s) => resolvedOf a s)).map fun p => isOkUR (unify (strList world) p)
+          outs.any (· != outs.headD true)
+        | none => false
+      if orderDep then some (go ++ "\tfail:arch-order-dependent\tF09g") else
       let rg := field "ranges"
       if rg != "ok" && rg != "-" then some (impl ++ "\tfail:" ++ rg ++ "\tunlisted") else
       if field "build" = "ok" then
@@ -218,14 +238,14 @@ def handle (args : List String) : Option String :=
             | _, _ => true
           let cls := if archs.length > 1 && diverges then "F09i" else
             match relocks.bind (·.head?), archs.head? with
-            | some (_, s, _), some (_, u) => relockClass u w s
+            | some (_, s, _), some (_, u) => relockClass u (strList world) s
             | _, _ => "unlisted"
           some (impl ++ "\tfail:locked-build-differs\t" ++ cls)
       else
         match firstBad with
         | some (a, s, _) =>
           match lookupT archs a with
-          | some u => some (impl ++ "\tfail:unlocked-build-fails-on-its-own-lock\t" ++ relockClass u w s)
+          | some u => some (impl ++ "\tfail:unlocked-build-fails-on-its-own-lock\t" ++ relockClass u (strList world) s)
           | none => some (impl ++ "\tpass\t-")
         | none => some (impl ++ "\tpass\t-")
     | _ => some "bad-universe\tfail:bad-universe\tunlisted"
